@@ -377,3 +377,15 @@ func TestF29_BlockedOptionalStepNotOffered(t *testing.T) {
 		t.Errorf("fields offered at the root for step s3: want [input s1] (s2 is blocked, s3 is the current step), got %s", fields)
 	}
 }
+
+func TestF30_QuotedOptionalStepBlocked(t *testing.T) {
+	schema := "input: { _dependencies: [], name: string }\n\"s-1\": { _dependencies: [], result: string }\n\"s-2\"?: { _dependencies: [], result: string }\n\"s-3\": { _dependencies: [\"s-1\"], result: string }\n"
+	tc, err := mpath.CueValidate("$.s-2.result", schema, "s-3")
+	if tc == nil {
+		t.Fatalf("unexpected: %v", err)
+	}
+	b, _ := json.Marshal(tc)
+	if !strings.Contains(string(b), "not available") {
+		t.Errorf("s-2 is outside the dependencies of s-3 and must be refused; got %v %.300s", err, b)
+	}
+}
